@@ -436,3 +436,142 @@ theorem eq_iff (a b : Value) (ha : WF a) (hb : WF b) (na : Normal a) (nb : Norma
 
 end Value
 end Pyc
+
+set_option linter.unusedSimpArgs false
+
+namespace Pyc
+namespace MultiAsset
+open Dict
+
+/-- `m[p][n] = v` (creating the policy when absent) overwrites exactly one cell -/
+theorem qty_set_inner (m : MultiAsset) (p k : Bytes) (v : Int) (p' n' : Bytes) :
+    qty (set m p (set (getD m p []) k v)) p' n' = if p = p' ∧ k = n' then v else qty m p' n' := by
+  unfold qty Asset.qty
+  rw [getD_set]
+  by_cases hp : p = p'
+  · subst hp
+    simp only [if_true, true_and]
+    rw [getD_set]
+  · simp [hp]
+
+theorem wf_set_inner (m : MultiAsset) (p k : Bytes) (v : Int) (h : WF m) :
+    WF (set m p (set (getD m p []) k v)) := by
+  have hw := wf_set m p (set (getD m p []) k v) h.1
+  refine ⟨hw, ?_⟩
+  intro q hq
+  obtain ⟨kk, x⟩ := q
+  have := (mem_iff_getD _ kk x [] hw).1 hq
+  rw [getD_set, has_set] at this
+  by_cases hk : p = kk
+  · subst hk
+    simp at this
+    rw [← this]
+    exact wf_set _ _ _ (wf_getD m p h)
+  · simp [hk] at this
+    exact h.2 (kk, x) ((mem_iff_getD m kk x [] h.1).2 this)
+
+theorem filterInner_spec (c : Bytes → Bytes → Int → Bool) (p : Bytes) (a : Asset) (acc : MultiAsset)
+    (ha : Dict.WF a) (p' n' : Bytes) :
+    qty (filterInner c p a acc) p' n'
+      = if p = p' ∧ has a n' = true ∧ c p n' (Asset.qty a n') = true then Asset.qty a n' else qty acc p' n' := by
+  unfold filterInner
+  induction a generalizing acc with
+  | nil => simp [has]
+  | cons kv r ih =>
+    obtain ⟨k, v⟩ := kv
+    have hr := wf_tail ha
+    have hh : has r k = false := wf_head ha
+    simp only [List.foldl_cons]
+    rw [ih _ hr]
+    by_cases hk : k = n'
+    · subst hk
+      have q1 : Asset.qty ((k, v) :: r) k = v := by simp [Asset.qty, getD]
+      simp only [hh, has, q1, Bool.false_eq_true, false_and, and_false, if_false, beq_self_eq_true, Bool.true_or,
+        true_and, decide_true]
+      by_cases hc : c p k v = true
+      · simp only [hc, if_true, and_true]
+        rw [qty_set_inner]
+        simp
+      · simp [hc]
+    · have q1 : Asset.qty ((k, v) :: r) n' = Asset.qty r n' := by simp [Asset.qty, getD, hk]
+      have h1 : has ((k, v) :: r) n' = has r n' := by simp [has, hk]
+      rw [q1, h1]
+      by_cases hc : c p k v = true
+      · simp only [hc, if_true]
+        rw [qty_set_inner]
+        simp [hk]
+      · simp [hc]
+
+theorem filterInner_wf (c : Bytes → Bytes → Int → Bool) (p : Bytes) (a : Asset) (acc : MultiAsset) (h : WF acc) :
+    WF (filterInner c p a acc) := by
+  unfold filterInner
+  induction a generalizing acc with
+  | nil => simpa
+  | cons kv r ih =>
+    simp only [List.foldl_cons]
+    apply ih
+    split
+    · exact wf_set_inner _ _ _ _ h
+    · exact h
+
+/-- `MultiAsset.filter` keeps exactly the cells satisfying the criterion -/
+theorem filter_spec_aux (c : Bytes → Bytes → Int → Bool) (m acc : MultiAsset) (hm : WF m) (p' n' : Bytes) :
+    qty (m.foldl (fun acc p => filterInner c p.1 p.2 acc) acc) p' n'
+      = if has m p' = true ∧ has (getD m p' []) n' = true ∧ c p' n' (qty m p' n') = true then qty m p' n'
+        else qty acc p' n' := by
+  induction m generalizing acc with
+  | nil => simp [has]
+  | cons pa r ih =>
+    obtain ⟨pol, a⟩ := pa
+    have hr : WF r := ⟨wf_tail hm.1, fun q hq => hm.2 q (by simp [hq])⟩
+    have ha : Dict.WF a := hm.2 (pol, a) (by simp)
+    have hh : has r pol = false := wf_head hm.1
+    simp only [List.foldl_cons]
+    rw [ih _ hr, filterInner_spec c pol a acc ha]
+    by_cases hp : pol = p'
+    · subst hp
+      have q1 : qty ((pol, a) :: r) pol n' = Asset.qty a n' := by simp [qty, getD]
+      have g1 : getD ((pol, a) :: r) pol [] = a := by simp [getD]
+      simp only [hh, has, q1, g1, Bool.false_eq_true, false_and, if_false, beq_self_eq_true, Bool.true_or, true_and,
+        decide_true]
+    · have q1 : qty ((pol, a) :: r) p' n' = qty r p' n' := by simp [qty, getD, hp]
+      have g1 : getD ((pol, a) :: r) p' [] = getD r p' [] := by simp [getD, hp]
+      have h1 : has ((pol, a) :: r) p' = has r p' := by simp [has, hp]
+      rw [q1, g1, h1]
+      simp [hp]
+
+theorem filter_spec (c : Bytes → Bytes → Int → Bool) (m : MultiAsset) (hm : WF m) (p n : Bytes) :
+    qty (filter m c) p n
+      = if has m p = true ∧ has (getD m p []) n = true ∧ c p n (qty m p n) = true then qty m p n else 0 := by
+  unfold filter
+  rw [filter_spec_aux c m [] hm]
+  have : qty [] p n = 0 := by simp [qty, getD, Asset.qty]
+  rw [this]
+
+theorem filter_wf (c : Bytes → Bytes → Int → Bool) (m : MultiAsset) : WF (filter m c) := by
+  unfold filter
+  suffices ∀ acc, WF acc → WF (m.foldl (fun acc p => filterInner c p.1 p.2 acc) acc) from this [] wf_nil
+  induction m with
+  | nil => intro acc h; simpa
+  | cons pa r ih => intro acc h; simp only [List.foldl_cons]; exact ih _ (filterInner_wf c _ _ _ h)
+
+/-- the filter used throughout the builder: keep strictly positive quantities -/
+theorem filter_pos_spec (m : MultiAsset) (hm : WF m) (p n : Bytes) :
+    qty (filter m (fun _ _ v => decide (v > 0))) p n = if qty m p n > 0 then qty m p n else 0 := by
+  rw [filter_spec _ m hm]
+  by_cases hq : qty m p n > 0
+  · have h1 : has m p = true := by
+      cases hh : has m p with
+      | true => rfl
+      | false => rw [qty_of_not_has _ _ _ hh] at hq; omega
+    have h2 : has (getD m p []) n = true := by
+      cases hh : has (getD m p []) n with
+      | true => rfl
+      | false =>
+        have : qty m p n = 0 := by simp [qty, Asset.qty, has_false_getD _ _ _ hh]
+        omega
+    simp [h1, h2, hq]
+  · simp [hq]
+
+end MultiAsset
+end Pyc
